@@ -152,8 +152,23 @@ static std::string runF(const std::vector<std::string> &ops)
       else if (f[0] == "has") o << (cview.contains(KC::enc(std::stol(f[1]))) ? "true" : "false");
       else if (f[0] == "erase") { m.erase(KC::enc(std::stol(f[1]))); o << "ok"; }
       else if (f[0] == "clear") { m.clear(); o << "ok"; }
+      else if (f[0] == "copy") {
+        // implicit copy constructor / assignment: value copies of the vector; no move exists, std::move copies
+        auto snap = [](const FlatMap<K, V> &x) { std::ostringstream d; for (auto it = x.begin(); it != x.end(); ++it) d << KC::dec(it->first) << "=" << Codec<V>::dec(it->second) << " "; return d.str(); };
+        FlatMap<K, V> c(m);
+        std::string before = snap(c);
+        m.clear();                                   // mutating the original must not touch the copy
+        bool ok = snap(c) == before && m.size() == 0;
+        FlatMap<K, V> c2(std::move(c));
+        ok = ok && snap(c) == before && snap(c2) == before;
+        m = c2;
+        c2.clear();
+        o << (ok ? "ok" : "!ALIAS");
+      }
       else o << "badop";
     } catch (const std::out_of_range &) { o.str(""); o << "throw"; }
+    // reserve() must not change anything observable (and may reallocate: nothing below holds an iterator across it)
+    m.reserve(m.size() + (size_t)(tok.size() % 3));
     // dump by forward iteration; cross-check with reverse iteration and const access
     o << "|[";
     bool f1 = true;
@@ -215,6 +230,66 @@ static void setLiteral(utility::ParameterizedObject &po, const std::string &n, l
   }
 }
 
+// one operation on one object (result text into o)
+static void applyP(PO &po, const std::vector<std::string> &f, std::ostringstream &o)
+{
+  if (f[0] == "has") o << (po.hasParam(nameEnc(std::stol(f[1]))) ? "true" : "false");
+  else if (f[0] == "set") {
+    long t = std::stol(f[2]), v = std::stol(f[3]); std::string n = nameEnc(std::stol(f[1]));
+    if (t == 0) po.setParam<int>(n, (int)v);
+    else if (t == 1) po.setParam<float>(n, pfEnc(v));
+    else if (t == 2) po.setParam<std::string>(n, strEnc(v));
+    else if (t == 3) po.setParam<vec3f>(n, vec3f((float)v, (float)v + 1, (float)v + 2));
+    else if (t == 4) setLiteral(po, n, v);
+    else if (t == 5) po.setParam(n, g_txt[v & 255]);                                   // T deduced char[8]
+    else if (t == 6) { const char *ptr = g_txt[v & 255]; po.setParam(n, ptr); }          // T = const char*
+    else if (t == 7) { utility::Any a = (int)v; po.setParam(n, a); }                     // T = Any
+    else if (t == 8) { utility::Any a = pfEnc(v); po.setParam(n, a); }
+    else if (t == 9) { utility::Any a = strEnc(v); po.setParam(n, a); }
+    else if (t == 10) { utility::Any a; po.setParam(n, a); }
+    else if (t == 11) po.setParam(n, (short)v);
+    else if (t == 12) po.setParam(n, (C10Enum)v);
+    else po.setParam(n, Codec<Shadow>::enc(v));                                         // 13: key-only operator==
+    o << "ok";
+  } else if (f[0] == "get") {
+    long t = std::stol(f[2]), d = std::stol(f[3]); std::string n = nameEnc(std::stol(f[1]));
+    if (t == 0) o << "val=" << po.getParam<int>(n, (int)d);
+    else if (t == 1) o << "val=" << pfDec(po.getParam<float>(n, pfEnc(d)));
+    else if (t == 2) o << "val=" << std::stol(po.getParam<std::string>(n, strEnc(d)).substr(1));
+    else if (t == 3) o << "val=" << (long)po.getParam<vec3f>(n, vec3f((float)d, (float)d + 1, (float)d + 2)).x;
+    else if (t == 4) o << "val=" << std::strtol(po.getParam<const char *>(n, (const char *)g_txt[d & 255]), nullptr, 10);
+    else if (t == 5) o << "val=" << (long)po.getParam<short>(n, (short)d);
+    else if (t == 6) o << "val=" << (long)po.getParam<C10Enum>(n, (C10Enum)d);
+    else o << "val=" << Codec<Shadow>::dec(po.getParam<Shadow>(n, Codec<Shadow>::enc(d)));
+  } else if (f[0] == "rm") { po.removeParam(nameEnc(std::stol(f[1]))); o << "ok"; }
+  else if (f[0] == "reset") { po.resetAllParamQueryStatus(); o << "ok"; }
+  else if (f[0] == "add") { po.findParam(nameEnc(std::stol(f[1])), true); o << "ok"; }
+  else o << "badop";
+}
+
+static void dumpP(PO &po, std::ostringstream &o)
+{
+  o << "[";
+  bool f1 = true;
+  for (auto it = po.params_begin(); it != po.params_end(); ++it) {
+    auto &p = **it;
+    o << (f1 ? "" : " ") << nameDec(p.name) << "=";
+    if (!p.data.valid()) o << "none";
+    else if (p.data.is<int>()) o << "0:" << p.data.get<int>();
+    else if (p.data.is<float>()) o << "1:" << pfDec(p.data.get<float>());
+    else if (p.data.is<Shadow>()) o << "7:" << Codec<Shadow>::dec(p.data.get<Shadow>());
+    else if (p.data.is<std::string>()) o << "2:" << std::stol(p.data.get<std::string>().substr(1));
+    else if (p.data.is<const char *>()) o << "4:" << std::strtol(p.data.get<const char *>(), nullptr, 10);
+    else if (p.data.is<short>()) o << "5:" << (long)p.data.get<short>();
+    else if (p.data.is<C10Enum>()) o << "6:" << (long)p.data.get<C10Enum>();
+    else if (p.data.is<vec3f>()) { auto v = p.data.get<vec3f>(); o << "3:" << (long)v.x; if (v.y != v.x + 1 || v.z != v.x + 2) o << "!VEC"; }
+    else o << "?";
+    if (p.query) o << "q";
+    f1 = false;
+  }
+  o << "]";
+}
+
 static std::string runP(const std::vector<std::string> &ops)
 {
   PO po;
@@ -223,59 +298,40 @@ static std::string runP(const std::vector<std::string> &ops)
   for (auto &tok : ops) {
     auto f = split(tok, ':');
     std::ostringstream o;
+    try { applyP(po, f, o); } catch (const std::exception &e) { o.str(""); o << "throw"; }
+    o << "|";
+    dumpP(po, o);
+    out << (first ? "" : " ; ") << o.str();
+    first = false;
+  }
+  return out.str();
+}
+
+// two objects and copies between them: "a:<op>" / "b:<op>" act on one object, "cab" copies a into b (copy constructor of a
+// temporary + copy assignment), "cba" copies b into a through std::move (there is no move: the source must stay intact).
+// The implicit copy shares the Param objects (shared_ptr) and copies the list.
+static std::string runQ(const std::vector<std::string> &ops)
+{
+  PO a, b;
+  std::ostringstream out;
+  bool first = true;
+  for (auto &tok : ops) {
+    std::ostringstream o;
     try {
-      if (f[0] == "has") o << (po.hasParam(nameEnc(std::stol(f[1]))) ? "true" : "false");
-      else if (f[0] == "set") {
-        long t = std::stol(f[2]), v = std::stol(f[3]); std::string n = nameEnc(std::stol(f[1]));
-        if (t == 0) po.setParam<int>(n, (int)v);
-        else if (t == 1) po.setParam<float>(n, pfEnc(v));
-        else if (t == 2) po.setParam<std::string>(n, strEnc(v));
-        else if (t == 3) po.setParam<vec3f>(n, vec3f((float)v, (float)v + 1, (float)v + 2));
-        else if (t == 4) setLiteral(po, n, v);
-        else if (t == 5) po.setParam(n, g_txt[v & 255]);                                   // T deduced char[8]
-        else if (t == 6) { const char *ptr = g_txt[v & 255]; po.setParam(n, ptr); }          // T = const char*
-        else if (t == 7) { utility::Any a = (int)v; po.setParam(n, a); }                     // T = Any
-        else if (t == 8) { utility::Any a = pfEnc(v); po.setParam(n, a); }
-        else if (t == 9) { utility::Any a = strEnc(v); po.setParam(n, a); }
-        else if (t == 10) { utility::Any a; po.setParam(n, a); }
-        else if (t == 11) po.setParam(n, (short)v);
-        else if (t == 12) po.setParam(n, (C10Enum)v);
-        else po.setParam(n, Codec<Shadow>::enc(v));                                         // 13: key-only operator==
-        o << "ok";
-      } else if (f[0] == "get") {
-        long t = std::stol(f[2]), d = std::stol(f[3]); std::string n = nameEnc(std::stol(f[1]));
-        if (t == 0) o << "val=" << po.getParam<int>(n, (int)d);
-        else if (t == 1) o << "val=" << pfDec(po.getParam<float>(n, pfEnc(d)));
-        else if (t == 2) o << "val=" << std::stol(po.getParam<std::string>(n, strEnc(d)).substr(1));
-        else if (t == 3) o << "val=" << (long)po.getParam<vec3f>(n, vec3f((float)d, (float)d + 1, (float)d + 2)).x;
-        else if (t == 4) o << "val=" << std::strtol(po.getParam<const char *>(n, (const char *)g_txt[d & 255]), nullptr, 10);
-        else if (t == 5) o << "val=" << (long)po.getParam<short>(n, (short)d);
-        else if (t == 6) o << "val=" << (long)po.getParam<C10Enum>(n, (C10Enum)d);
-        else o << "val=" << Codec<Shadow>::dec(po.getParam<Shadow>(n, Codec<Shadow>::enc(d)));
-      } else if (f[0] == "rm") { po.removeParam(nameEnc(std::stol(f[1]))); o << "ok"; }
-      else if (f[0] == "reset") { po.resetAllParamQueryStatus(); o << "ok"; }
-      else if (f[0] == "add") { po.findParam(nameEnc(std::stol(f[1])), true); o << "ok"; }
-      else o << "badop";
+      if (tok == "cab") { PO tmp(a); b = tmp; o << "ok"; }
+      else if (tok == "cba") {
+        std::ostringstream before, after;
+        dumpP(b, before);
+        PO tmp(std::move(b)); a = std::move(tmp);
+        dumpP(b, after);
+        o << (before.str() == after.str() ? "ok" : "!MOVE");
+      } else {
+        auto f = split(tok.substr(2), ':');
+        applyP(tok[0] == 'a' ? a : b, f, o);
+      }
     } catch (const std::exception &e) { o.str(""); o << "throw"; }
-    o << "|[";
-    bool f1 = true;
-    for (auto it = po.params_begin(); it != po.params_end(); ++it) {
-      auto &p = **it;
-      o << (f1 ? "" : " ") << nameDec(p.name) << "=";
-      if (!p.data.valid()) o << "none";
-      else if (p.data.is<int>()) o << "0:" << p.data.get<int>();
-      else if (p.data.is<float>()) o << "1:" << pfDec(p.data.get<float>());
-      else if (p.data.is<Shadow>()) o << "7:" << Codec<Shadow>::dec(p.data.get<Shadow>());
-      else if (p.data.is<std::string>()) o << "2:" << std::stol(p.data.get<std::string>().substr(1));
-      else if (p.data.is<const char *>()) o << "4:" << std::strtol(p.data.get<const char *>(), nullptr, 10);
-      else if (p.data.is<short>()) o << "5:" << (long)p.data.get<short>();
-      else if (p.data.is<C10Enum>()) o << "6:" << (long)p.data.get<C10Enum>();
-      else if (p.data.is<vec3f>()) { auto v = p.data.get<vec3f>(); o << "3:" << (long)v.x; if (v.y != v.x + 1 || v.z != v.x + 2) o << "!VEC"; }
-      else o << "?";
-      if (p.query) o << "q";
-      f1 = false;
-    }
-    o << "]";
+    o << "|";
+    dumpP(a, o); o << "#"; dumpP(b, o);
     out << (first ? "" : " ; ") << o.str();
     first = false;
   }
@@ -325,6 +381,7 @@ int main(int argc, char **argv)
 #endif
 #ifndef C10_NO_PO
     else if (kind == "P") std::cout << runP(ops) << "\n";
+    else if (kind == "Q") std::cout << runQ(ops) << "\n";
 #endif
     else std::cout << "\n";
   }
